@@ -149,8 +149,9 @@ TRUSTED = [
     'MCNP keeps only the sheet of the frustum for a bare b.1 reference is not '
     'settled by the manual: sweep points beyond the apex are skipped for '
     '+-b.1 probes (counted as trc_facet1_other_sheet)',
-    'harness: generators, mcnpref/t4eval oracles, impl.T4File reader, PEG '
-    'shim replacing TatSu',
+    'harness: generators, mcnpref/t4eval/geomcheck oracles (the lattice '
+    'reference takes the lattice vectors from the generator), impl.T4File '
+    'reader, PEG shim replacing TatSu',
 ]
 ASSUMPTIONS = [
     'no class of C03 is open: the left-handed WED defect (DESIGN 8 #20) was '
